@@ -399,9 +399,10 @@ static void run_range(const std::string &exe, long long a, long long b, std::vec
     res.assign(b - a, "");
     descs.assign(b - a, "");
     long long cur = a;
-    int spawns = 0;
+    long long spawns = 0;
+    int confirmed = 0;
     while (cur < b) {
-        if (++spawns > 300) {
+        if (++spawns > (b - a) + 20) { // every respawn consumes at least one call
             for (long long i = cur; i < b; i++)
                 res[i - a] = "MACHINERY:too-many-respawns";
             return;
@@ -467,7 +468,7 @@ static void run_range(const std::string &exe, long long a, long long b, std::vec
             std::string why = WIFSIGNALED(st) ? signame(WTERMSIG(st)) : "EXIT:" + std::to_string(WEXITSTATUS(st));
             if (WIFEXITED(st) && WEXITSTATUS(st) == 0)
                 why = "MACHINERY:missing-line";
-            if (confirm && why.rfind("CRASH", 0) == 0) { // re-run the single call in a fresh process
+            if (confirm && why.rfind("CRASH", 0) == 0 && ++confirmed <= 5) { // re-run the single call in a fresh process (first few per range)
                 std::vector<std::string> r1, d1;
                 run_range(exe, cur, cur + 1, r1, d1, false);
                 if (r1[0].rfind("CRASH", 0) != 0)
